@@ -34,6 +34,7 @@ enum Kind {
     Bash,       // blocking bash (FIFO), markers
     Shell,      // the alias `shell`, blocking, markers
     BashQuick,  // bash that only writes its markers
+    BashTimeout, // blocking bash with `timeout_ms`: the call ends by timeout while the command sits in its FIFO
     Write,
     Patch,
     Unknown,    // a tool name nobody registered
@@ -58,7 +59,7 @@ impl Kind {
     }
     fn tool_name(self) -> &'static str {
         match self {
-            Bash | BashQuick => "bash",
+            Bash | BashQuick | BashTimeout => "bash",
             Shell => "shell",
             Write => "write",
             Patch => "apply_patch",
@@ -75,13 +76,13 @@ impl Kind {
         matches!(self, Read | Ls | Grep | Fetch)
     }
     fn spec_mutating_tool(self) -> bool {
-        matches!(self, Bash | Shell | BashQuick | Write | Patch)
+        matches!(self, Bash | Shell | BashQuick | BashTimeout | Write | Patch)
     }
     fn blocking(self) -> bool {
-        matches!(self, Bash | Shell | Task | TaskPty)
+        matches!(self, Bash | Shell | BashTimeout | Task | TaskPty)
     }
     fn marks(self) -> bool {
-        matches!(self, Bash | Shell | BashQuick | Task | TaskPty)
+        matches!(self, Bash | Shell | BashQuick | BashTimeout | Task | TaskPty)
     }
 }
 
@@ -221,6 +222,8 @@ struct Obs {
     blocked_attempts: u64,
     ro_overlaps: u64,
     intrusions: u64,
+    /// calls that ended while their command was still running
+    outlived: u64,
 }
 
 struct Run<'a> {
@@ -257,20 +260,36 @@ fn marker_path(side: &Path) -> PathBuf {
     side.join("markers")
 }
 
-fn read_markers(side: &Path) -> Vec<(usize, u64)> {
+fn read_markers_pid(side: &Path) -> Vec<(usize, u64, Option<i32>)> {
     let s = std::fs::read_to_string(marker_path(side)).unwrap_or_default();
     let mut v = vec![];
     for l in s.lines() {
         let mut it = l.split_whitespace();
         let (Some(w), Some(a)) = (it.next(), it.next()) else { continue };
         let Ok(a) = a.parse::<usize>() else { continue };
+        let pid = it.next().and_then(|p| p.parse::<i32>().ok());
         match w {
-            "enter" => v.push((a, 0)),
-            "exit" => v.push((a, 1)),
+            "enter" => v.push((a, 0, pid)),
+            "exit" => v.push((a, 1, pid)),
             _ => {}
         }
     }
     v
+}
+
+fn read_markers(side: &Path) -> Vec<(usize, u64)> {
+    read_markers_pid(side).into_iter().map(|(a, w, _)| (a, w)).collect()
+}
+
+/// the process exists and is not a zombie
+fn pid_running(pid: i32) -> bool {
+    match std::fs::read_to_string(format!("/proc/{pid}/stat")) {
+        Err(_) => false,
+        Ok(s) => match s.rfind(')') {
+            Some(k) => !matches!(s[k + 1..].trim_start().chars().next(), Some('Z') | Some('X') | None),
+            None => false,
+        },
+    }
 }
 
 fn open_sections(marks: &[(usize, u64)]) -> Vec<usize> {
@@ -300,15 +319,15 @@ impl<'a> Run<'a> {
     fn command(&self, i: usize, blocking: bool) -> String {
         let m = marker_path(&self.side);
         if blocking {
-            format!("echo enter {i} >> {m}; read _ < {f}; echo exit {i} >> {m}", m = m.display(), f = self.side.join(format!("fifo{i}")).display())
+            format!("echo enter {i} $$ >> {m}; read _ < {f}; echo exit {i} >> {m}", m = m.display(), f = self.side.join(format!("fifo{i}")).display())
         } else {
-            format!("echo enter {i} >> {m}; echo exit {i} >> {m}", m = m.display())
+            format!("echo enter {i} $$ >> {m}; echo exit {i} >> {m}", m = m.display())
         }
     }
 
     fn tool_args(&self, i: usize, c: usize, k: Kind) -> Value {
         match k {
-            Bash | Shell | BashQuick => json!({"command": self.command(i, k.blocking())}),
+            Bash | Shell | BashQuick | BashTimeout => json!({"command": self.command(i, k.blocking())}),
             Write => json!({"path": self.call_file(i, c), "content": format!("by {i}\n")}),
             Patch => {
                 // add one file, update a second, delete a third (all private to this call)
@@ -329,6 +348,7 @@ impl<'a> Run<'a> {
             CkptCreate => json!({"checkpoint": {"action": "create", "label": format!("c{i}"), "files": ["seed.txt"]}}),
             CkptRewind => json!({"checkpoint": {"action": "rewind", "id": self.rewind_id.clone().unwrap_or_default()}}),
             Loop => return format!("please run the tools (actor {i})"),
+            BashTimeout => json!({"tool": "bash", "args": self.tool_args(i, 0, k), "timeout_ms": 400}),
             _ => json!({"tool": k.tool_name(), "args": self.tool_args(i, 0, k)}),
         };
         v.to_string()
@@ -612,8 +632,10 @@ impl<'a> Run<'a> {
             }
             Status::Done | Status::Blocked => false,
             Status::Inside => {
-                // release the FIFO; the command writes its exit marker and returns
-                if let Some(f) = self.fifos[i].as_mut() {
+                // release the FIFO; the command writes its exit marker and returns (a call with a
+                // timeout is left alone: it ends by itself while the command still sits in its FIFO)
+                if self.cur_kind(i) == BashTimeout {
+                } else if let Some(f) = self.fifos[i].as_mut() {
                     let _ = f.write_all(b"x\n");
                     let _ = f.flush();
                 }
@@ -641,10 +663,24 @@ impl<'a> Run<'a> {
     fn ended(&mut self, i: usize) {
         let c = self.call[i];
         self.push(i, 3, c);
-        if self.cancelled[i] && self.entered(i) {
-            // the cancelled command was killed inside its section: it is over now
-            if let Ok(mut f) = std::fs::OpenOptions::new().append(true).open(marker_path(&self.side)) {
-                let _ = writeln!(f, "exit {i}");
+        if self.entered(i) {
+            // the call is over but its command never wrote the exit marker (killed by a cancel or a
+            // timeout?): the section is over when the process is gone — and still open if it lives on
+            let pid = read_markers_pid(&self.side).iter().rev().find(|(a, w, _)| *a == i && *w == 0).and_then(|(_, _, p)| *p);
+            let t0 = Instant::now();
+            let mut alive = true;
+            while alive && t0.elapsed() < Duration::from_secs(3) {
+                alive = pid.map(pid_running).unwrap_or(false);
+                if alive {
+                    std::thread::sleep(Duration::from_millis(5));
+                }
+            }
+            if !alive {
+                if let Ok(mut f) = std::fs::OpenOptions::new().append(true).open(marker_path(&self.side)) {
+                    let _ = writeln!(f, "exit {i}");
+                }
+            } else {
+                self.obs.outlived += 1;
             }
         }
         // what the call really changed in the workspace (nobody else moved since it was let go)
@@ -1043,7 +1079,7 @@ fn run_scenario(rt: &tokio::runtime::Runtime, ctl: &Arc<Ctl>, sc: &Scenario, set
         call: vec![0; n],
         rewind_id,
         settle,
-        obs: Obs { steps: vec![], ends_linked: vec![], violations: vec![], blocked_attempts: 0, ro_overlaps: 0, intrusions: 0 },
+        obs: Obs { steps: vec![], ends_linked: vec![], violations: vec![], blocked_attempts: 0, ro_overlaps: 0, intrusions: 0, outlived: 0 },
         files_seen: files_seen0,
         providers: vec![],
         task_handles: (0..n).map(|_| None).collect(),
@@ -1264,7 +1300,7 @@ fn run_scenario(rt: &tokio::runtime::Runtime, ctl: &Arc<Ctl>, sc: &Scenario, set
             run.viol("frame-order", format!("side-effects frames on the thread are in order {got:?} (actor, call); the mutations ended in order {want:?}"));
         }
     }
-    let obs = std::mem::replace(&mut run.obs, Obs { steps: vec![], ends_linked: vec![], violations: vec![], blocked_attempts: 0, ro_overlaps: 0, intrusions: 0 });
+    let obs = std::mem::replace(&mut run.obs, Obs { steps: vec![], ends_linked: vec![], violations: vec![], blocked_attempts: 0, ro_overlaps: 0, intrusions: 0, outlived: 0 });
     ctl.mu.lock().unwrap().active = false;
     drop(run);
     // attribute every marker to the call that wrote it: the j-th section of a loop session belongs to
@@ -1291,7 +1327,7 @@ fn run_scenario(rt: &tokio::runtime::Runtime, ctl: &Arc<Ctl>, sc: &Scenario, set
 fn gen_scenario(r: &mut Rng, thorough: bool) -> Scenario {
     let n = r.range(2, if thorough { 6 } else { 5 }) as usize;
     let mut actors = vec![];
-    let mutators = [Bash, Bash, Shell, BashQuick, Write, Write, Patch, Unknown, CkptCreate, CkptRewind, Task, Task, Loop, Loop];
+    let mutators = [Bash, Bash, Shell, BashQuick, BashTimeout, Write, Write, Patch, Unknown, CkptCreate, CkptRewind, Task, Task, Loop, Loop];
     let readers = [Read, Ls, Grep, Fetch];
     for i in 0..n {
         let kind = if i == 0 || r.chance(7, 10) { *r.pick(&mutators) } else { *r.pick(&readers) };
@@ -1329,6 +1365,8 @@ fn corpus() -> Vec<Scenario> {
         // a task cancelled while it is queued behind a session that sits in its command
         Scenario { actors: vec![a(Bash, true), a(Task, false), a(Write, true)], gos: vec![0, 0, 0, 1, 1, 1001, 2, 2, 0, 0, 0, 0, 0, 0, 1, 1, 1, 2, 2, 2, 2, 2, 2], seed: 9 },
         Scenario { actors: vec![a(Task, false), a(Task, false), a(Shell, true)], gos: vec![0, 0, 0, 1, 1, 1001, 2, 2, 1001, 0, 0], seed: 10 },
+        // a bash call that ends by timeout while its command is still blocked; then another mutation
+        Scenario { actors: vec![a(BashTimeout, true), a(BashQuick, true), a(Write, true)], gos: vec![0, 0, 0, 1, 2, 0, 0, 0, 0, 0, 0, 1, 1, 1, 1, 1, 1, 2, 2, 2, 2, 2, 2], seed: 11 },
         // several calls in one provider response
         Scenario { actors: vec![lpb(&[Write, Ls, BashQuick, Patch], true), a(Bash, true), a(Task, false)], gos: vec![], seed: 8 },
         // readers among themselves and an unknown tool
@@ -1415,6 +1453,7 @@ fn main() {
         res.oracle_checks += 4;
         res.bump_by("blocked_attempts", o.obs.blocked_attempts);
         res.bump_by("readonly_overlaps", o.obs.ro_overlaps);
+        res.bump_by("calls_outlived_by_their_command", o.obs.outlived);
         res.bump_by("steps", o.obs.steps.len() as u64);
         res.bump_by("frames", o.frames.len() as u64);
         res.bump(&format!("actors_{}", sc.actors.len()));
